@@ -8,7 +8,8 @@ import (
 
 func nextRune(b []byte, i int) (rune, int, error) {
 	ch, size := utf8.DecodeRune(b[i:])
-	if ch == utf8.RuneError {
+	if ch == utf8.RuneError && size <= 1 {
+		// size 3 is a well-formed U+FFFD in the input, not a decoding error
 		return ch, i, fmt.Errorf("bad unicode rune")
 	}
 	return ch, i + size, nil
